@@ -151,6 +151,7 @@ func checkTree(k *run.K, t model.Tree, scan bool) {
 }
 
 func scanChecks(k *run.K, g geom.Geometry, t model.Tree, lib, lastMixed []byte) {
+	setPreused(k.Index%2 == 1)
 	// into Geometry
 	var sg geom.Geometry
 	if err := sg.Scan(append([]byte(nil), lib...)); !k.Check("scan-match", err == nil && model.Equal(treeOf(sg), t), "Geometry.Scan: err=%v", err) {
@@ -166,36 +167,57 @@ func scanChecks(k *run.K, g geom.Geometry, t model.Tree, lib, lastMixed []byte) 
 	targets := []target{
 		{geom.TypePoint, func(b []byte) (geom.Geometry, driverValue, error) {
 			var x geom.Point
+			if pre := preused[geom.TypePoint]; pre != nil { // the receiver already holds a value of its type
+				_ = x.Scan(pre)
+			}
 			err := x.Scan(b)
 			return x.AsGeometry(), x, err
 		}},
 		{geom.TypeLineString, func(b []byte) (geom.Geometry, driverValue, error) {
 			var x geom.LineString
+			if pre := preused[geom.TypeLineString]; pre != nil { // the receiver already holds a value of its type
+				_ = x.Scan(pre)
+			}
 			err := x.Scan(b)
 			return x.AsGeometry(), x, err
 		}},
 		{geom.TypePolygon, func(b []byte) (geom.Geometry, driverValue, error) {
 			var x geom.Polygon
+			if pre := preused[geom.TypePolygon]; pre != nil { // the receiver already holds a value of its type
+				_ = x.Scan(pre)
+			}
 			err := x.Scan(b)
 			return x.AsGeometry(), x, err
 		}},
 		{geom.TypeMultiPoint, func(b []byte) (geom.Geometry, driverValue, error) {
 			var x geom.MultiPoint
+			if pre := preused[geom.TypeMultiPoint]; pre != nil { // the receiver already holds a value of its type
+				_ = x.Scan(pre)
+			}
 			err := x.Scan(b)
 			return x.AsGeometry(), x, err
 		}},
 		{geom.TypeMultiLineString, func(b []byte) (geom.Geometry, driverValue, error) {
 			var x geom.MultiLineString
+			if pre := preused[geom.TypeMultiLineString]; pre != nil { // the receiver already holds a value of its type
+				_ = x.Scan(pre)
+			}
 			err := x.Scan(b)
 			return x.AsGeometry(), x, err
 		}},
 		{geom.TypeMultiPolygon, func(b []byte) (geom.Geometry, driverValue, error) {
 			var x geom.MultiPolygon
+			if pre := preused[geom.TypeMultiPolygon]; pre != nil { // the receiver already holds a value of its type
+				_ = x.Scan(pre)
+			}
 			err := x.Scan(b)
 			return x.AsGeometry(), x, err
 		}},
 		{geom.TypeGeometryCollection, func(b []byte) (geom.Geometry, driverValue, error) {
 			var x geom.GeometryCollection
+			if pre := preused[geom.TypeGeometryCollection]; pre != nil { // the receiver already holds a value of its type
+				_ = x.Scan(pre)
+			}
 			err := x.Scan(b)
 			return x.AsGeometry(), x, err
 		}},
@@ -262,6 +284,26 @@ func scanChecks(k *run.K, g geom.Geometry, t model.Tree, lib, lastMixed []byte) 
 }
 
 type driverValue = driver.Valuer
+
+// preused: a valid WKB per type, scanned into concrete receivers before the scan that is judged (every
+// second case), so that stale state of the receiver would show.
+var preused = map[geom.GeometryType][]byte{}
+
+func setPreused(on bool) {
+	for k := range preused {
+		delete(preused, k)
+	}
+	if !on {
+		return
+	}
+	for _, wkt := range []string{"POINT ZM(9 9 9 9)", "LINESTRING Z(9 9 9,8 8 8,7 7 9)", "POLYGON M((0 0 1,9 0 2,9 9 3,0 0 1),(2 1 5,3 1 5,3 2 5,2 1 5))", "MULTIPOINT((9 9),(8 8),(7 7))",
+		"MULTILINESTRING Z((9 9 9,8 8 8),(1 1 1,2 2 2))", "MULTIPOLYGON(((0 0,9 0,9 9,0 0)),((20 20,29 20,29 29,20 20)))", "GEOMETRYCOLLECTION ZM(POINT ZM(1 2 3 4),LINESTRING ZM(1 2 3 4,5 6 7 8))"} {
+		g, err := geom.UnmarshalWKT(wkt)
+		if err == nil {
+			preused[g.Type()] = g.AsBinary()
+		}
+	}
+}
 
 func runAll(c *run.Ctx) {
 	n := c.N(40000, 400000)
